@@ -285,7 +285,14 @@ func rootStructOf(fa *ssa.FieldAddr) *types.Named {
 	for {
 		inner, ok := fa.X.(*ssa.FieldAddr)
 		if !ok {
-			return namedOrigin(fa.X.Type())
+			nt := namedOrigin(fa.X.Type())
+			// (the receiver of a method of a by-value component of a discipline)
+			if _, isPar := fa.X.(*ssa.Parameter); isPar && nt != nil {
+				if owner := componentOwner[nt]; owner != nil {
+					return owner
+				}
+			}
+			return nt
 		}
 		fa = inner
 	}
